@@ -71,7 +71,7 @@ func init() {
 		}})
 	}
 	register(&PropDef{ID: "C10", Plan: func(t string) Plan {
-		p := histPlan(t, histRule+"; the first 48 (thorough: 400) runs are concurrent-strictness scenarios: 2-5 overlapping strict handshakes for one distribution point while its origin fails or stalls or the store cannot switch to the delivered list (8 failure kinds, the last two being a store switch that fails and a staged database that cannot be moved into place, x backend x fetch mode), then while the first good delivery is slow, under seeded preemption; 4 more runs: lenient mode, an entry that was never loaded (origin unreachable) whose empty store fails every lookup - it must not be consulted")
+		p := histPlan(t, histRule+"; the first 48 (thorough: 400) runs are concurrent-strictness scenarios: 2-5 overlapping strict handshakes for one distribution point while its origin fails or stalls or the store cannot switch to the delivered list (8 failure kinds, the last two being a store switch that fails and a staged database that cannot be moved into place, x backend x fetch mode), then while the first good delivery is slow, under seeded preemption; 8 more runs: lenient mode, an entry that was never loaded whose empty store fails every lookup - it must not be consulted (origin unreachable), and an entry whose store could not switch to the first delivery (one I/O failure): nothing is denied for it, at once or after the updater has loaded the list")
 		p.Runs += strictConcRuns(t) + lenientUnloadedRuns(t)
 		p.Enumerated = strictConcRuns(t) + lenientUnloadedRuns(t) // they come first and are never cut by the wall-clock budget
 		return p
